@@ -13,7 +13,7 @@ From Coq Require Import List NArith ZArith Arith Bool Strings.String Lia.
 From V Require Spec.EscapeSpec.
 From V Require Import Base.Bytes Base.Res Gen.StrLeafGen Model.Strings Model.Spx Model.Ast Model.AutolinkLeaf Model.Inlines
      Proofs.InlinesProofs Proofs.InlinesTotal2 Proofs.InlinesTotal3Step Proofs.InlinesTotal3Walk Proofs.InlinesTotal3Main
-     Proofs.InlinesTotal4Last Proofs.InlinesTotal4Inv.
+     Proofs.InlinesTotal4Last Proofs.InlinesTotal4Inv Proofs.InlinesTotal4Utf8 Proofs.InlinesTotal4Stop.
 Import ListNotations.
 Local Open Scope list_scope.
 
@@ -63,6 +63,21 @@ Proof.
   apply (inlines_total_hardok memo o u inp lo sl refmap maxref Hrt Hfl); [|exact Hlo|exact Hr].
   intros p Ep. apply pointy_easy_hard_ok. exact (no_decl_pi_easy _ He p Ep).
 Qed.
+
+(* ------------------------------------------------------------------ the corrected full statement
+   valid UTF-8 without NUL: the CDATA / declaration / processing-instruction forms end in `>` (InlinesTotal4Stop) *)
+Theorem inlines_total_utf8 memo o u inp lo sl refmap maxref rs0 :
+  has_nul inp = false -> rtrim_slice inp = inp -> Spec.EscapeSpec.utf8_valid inp = true ->
+  first_line_not_blank inp = true -> line_endings inp < List.length lo -> (rs0 <= maxref)%N ->
+  exists ch rs, parse_inlines memo o u inp lo sl refmap maxref rs0 = Ok (ch, rs).
+Proof.
+  intros Hn Hrt Hu Hfl Hlo Hr.
+  apply (inlines_total_hardok memo o u inp lo sl refmap maxref Hrt Hfl); [|exact Hlo|exact Hr].
+  apply hardok_utf8; assumption.
+Qed.
+
+Theorem inlines_total : inlines_total_statement.
+Proof. intros o u inp lo sl refmap maxref rs0. apply inlines_total_utf8. Qed.
 
 (* ------------------------------------------------------------------ the statement of the third wave is false *)
 (* ftp://a.http //b.c *)
